@@ -159,12 +159,38 @@ def run_case(case: Dict) -> CaseResult:
     sim = env.game.simulation
     net = sim.network
     am = env.agent.action_manager
+    # reachable state "software uninstalled": remove some non-core software through the documented request, then aim
+    # every action-map entry that names it at the node (it addresses a component that no longer exists)
+    extra_probes: List[List] = []
+    UNINSTALLABLE = {"dns-client", "ftp-client", "ntp-client", "web-browser", "nmap", "database-service", "web-server",
+                     "dns-server", "ntp-server", "ftp-server", "database-client", "data-manipulation-bot",
+                     "ransomware-script", "dos-bot", "c2-beacon", "c2-server"}
+    for hsel, ssel in case.get("uninstall", []):
+        hosts = [n for n in net.nodes.values() if hasattr(n, "software_manager") and n.operating_state.name == "ON"]
+        if not hosts:
+            break
+        node = hosts[hsel % len(hosts)]
+        names = sorted(n_ for n_ in node.software_manager.software if n_ in UNINSTALLABLE)
+        if not names:
+            continue
+        name = names[ssel % len(names)]
+        try:
+            r = sim.apply_request(["network", "node", node.config.hostname, "software_manager", "application", "uninstall", name])
+        except Exception as e:
+            res.violate(f"raise:uninstall:{exc_sig(e)}", f"uninstall {name} on {node.config.hostname}: {exc_msg(e)}")
+            return res
+        if name not in node.software_manager.software:
+            res.label("uninstalled_software")
+            for idx, (act, opts) in am.action_map.items():
+                if opts.get("node_name") == node.config.hostname and name in (opts.get("service_name"), opts.get("application_name")) \
+                        and not act.endswith(("-install", "-remove")):
+                    extra_probes.append(["action", idx])
     paths = live_paths(sim)
     if not paths:
         return res
     nt_keys = set()
     non_initial = d.total_steps > 0
-    for j, pr in enumerate(case["probes"]):
+    for j, pr in enumerate(extra_probes[:12] + list(case["probes"])):
         kind = pr[0]
         expect_reachable = None
         missing = None
@@ -284,6 +310,7 @@ def probe_strategy():
 def gen_case(draw):
     c = draw(gen_case_strategy(max_ops=12))
     c["probes"] = draw(st.lists(probe_strategy(), min_size=10, max_size=60))
+    c["uninstall"] = draw(st.lists(st.tuples(st.integers(0, 5), st.integers(0, 20)).map(list), max_size=2))
     return c
 
 
